@@ -3,7 +3,6 @@ package verifsim
 import (
 	"fmt"
 	"io"
-	"os"
 	"sort"
 	"strings"
 	"sync/atomic"
